@@ -191,7 +191,7 @@ Print table_corr_bad. Print table_prop_bad. Print loop_corr_bad. Print loop_prop
     if res["loop_corr_bad"]:
         broken.append("correspondence Watcher.run_watcher vs runWatcher differs on loop cases %s: %s"
                       % (res["loop_corr_bad"][:10], [loops[i] for i in res["loop_corr_bad"][:3]]))
-    if broken and not chk.violations and not chk.known_hits:
+    if broken and not chk.violations:
         chk.fail("broken.txt", "\n\n".join(broken), no_input=True)
     chk.cov["disagreements"] = {k: len(v) for k, v in res.items()}
     chk.assumptions += ["Linux wait-status encoding (wait4) as modelled in Watcher.encode",
@@ -486,7 +486,7 @@ Print pf_successor_bad. Print pf_two_lockers.
         broken.append("correspondence Pidfile.step / kernel snapshots vs the real daemons differs on cases %s; first: %s\n%s"
                       % (res["pf_corr_bad"][:10], json.dumps(scenarios[i])[:1500],
                          json.dumps([(e["k"], e["p"], e.get("sys", ""), e.get("res", "")) for e in obs[i]["events"]])[:3000]))
-    if broken and not chk.violations and not chk.known_hits:
+    if broken and not chk.violations:
         chk.fail("pidfile_broken.txt", "\n\n".join(broken), no_input=True)
     chk.assumptions += ["POSIX fcntl record locks, unlink and O_CREAT as modelled in Pidfile.v (kernel: modelled, tied by "
                         "per-system-call snapshots of /proc/locks, the path's inode and the file content)",
